@@ -111,6 +111,14 @@ add("C13", "exploration", E1 + " executed in 18 worker processes (FLOW_RECORD_TZ
     "same instant.",
     "Instants are computed independently from wall clock minus utcoffset; sub-second offsets are not enumerated.", "DESIGN.md C13")
 
+add("C15", "exploration", E1 + " against ordered-dict reference models of merge/extend, timestamp expansion, grouped view, projections and the field rewriter",
+    "All ordered pairs (and triples over a smaller pool) of records over descriptors built from an overlapping field-name pool x replace x "
+    "rename, cold and warm caches; all descriptors of 0..4 fields over {ts, ts_description, a, d1, d2} x {datetime, string} in every order; "
+    "all groups of 1..3 (and nested) over 4 overlapping descriptors; all field subsets for _replace / init_from_dict / init_from_record / "
+    "extend / _asdict; every ordered fields list x exclude set for the rewriter over descriptor sequences that share a type name: results "
+    "equal the models, originals are never modified.",
+    "Expected records are built through the public constructor from the model's (name, fields, values).", "DESIGN.md C15")
+
 NOT_BUILT = "check not built yet in this round (design in DESIGN.md section 3); not claimed until it runs"
 
 
